@@ -1340,6 +1340,22 @@ def convert_prelu(op: Operation, arch, nng) -> Operation:
         if None in (ifm, alpha, ofm):
             return op
 
+        # The shapes of the op can differ from those of its tensors (a bypassed reshape): the operations created
+        # below and their intermediate tensors take the shapes of the op
+        ifm_shape, alpha_shape, ofm_shape = op.ifm_shapes[0], op.ifm_shapes[1], op.ofm_shapes[0]
+
+        def set_shapes(new_op, ifm2_shape):
+            new_op.set_ifm_ofm_shapes()
+            new_op.ifm_shapes[0] = ifm_shape
+            if ifm2_shape is not None:
+                new_op.ifm_shapes[1] = ifm2_shape
+            new_op.ofm_shapes[0] = ofm_shape
+
+        def clone_fm(tens, suffix):
+            new_tens = tens.clone(suffix, set_unique=True)
+            new_tens.set_all_shapes(ofm_shape.as_list())
+            return new_tens
+
         if alpha.values is not None:
             # If const alpha check for possible optimisations
             alpha_zp = alpha.quantization.zero_point
@@ -1370,9 +1386,9 @@ def convert_prelu(op: Operation, arch, nng) -> Operation:
                 mul_alpha = Operation(Op.Mul, op.name + "_mul_alpha")
                 mul_alpha.add_input_tensor(ifm)
                 mul_alpha.add_input_tensor(alpha)
-                fm_alpha = ofm.clone(op.name + "_alpha", set_unique=True)
+                fm_alpha = clone_fm(ofm, op.name + "_alpha")
                 mul_alpha.set_output_tensor(fm_alpha)
-                mul_alpha.set_ifm_ofm_shapes()
+                set_shapes(mul_alpha, alpha_shape)
                 DebugDatabase.add_optimised(op, mul_alpha)
                 if check_quantized_tens_scaling_equal(ifm, ofm):
                     # No scaling is needed
@@ -1388,9 +1404,9 @@ def convert_prelu(op: Operation, arch, nng) -> Operation:
                     one = create_const_tensor("one_const", [], ifm.dtype, [1], quantization=quantization)
                     mul_identity.add_input_tensor(one)
                     # Make sure that fm_id is allocated to a different address than fm_alpha
-                    fm_id = ofm.clone(op.name + "_id", set_unique=True)
+                    fm_id = clone_fm(ofm, op.name + "_id")
                     mul_identity.set_output_tensor(fm_id)
-                    mul_identity.set_ifm_ofm_shapes()
+                    set_shapes(mul_identity, None)
                     DebugDatabase.add_optimised(op, mul_identity)
 
                 # Combine scaled and alpha multiplied values
@@ -1398,7 +1414,7 @@ def convert_prelu(op: Operation, arch, nng) -> Operation:
                 max_op.add_input_tensor(fm_alpha)
                 max_op.add_input_tensor(fm_id)
                 max_op.set_output_tensor(ofm)
-                max_op.set_ifm_ofm_shapes()
+                set_shapes(max_op, ifm_shape)
 
                 DebugDatabase.add_optimised(op, max_op)
                 ifm.consumer_list.remove(op)
@@ -1414,26 +1430,26 @@ def convert_prelu(op: Operation, arch, nng) -> Operation:
         min_op = Operation(Op.Minimum, op.name + "_min")
         min_op.add_input_tensor(ifm)
         min_op.add_input_tensor(zero)
-        fm_negative = ifm.clone(op.name + "_negative", set_unique=True)
+        fm_negative = clone_fm(ifm, op.name + "_negative")
         min_op.set_output_tensor(fm_negative)
-        min_op.set_ifm_ofm_shapes()
+        set_shapes(min_op, None)
         DebugDatabase.add_optimised(op, min_op)
 
         # and multiply with alpha tensor
         mul_alpha = Operation(Op.Mul, op.name + "_mul_alpha")
         mul_alpha.add_input_tensor(fm_negative)
         mul_alpha.add_input_tensor(alpha)
-        fm_alpha = ofm.clone(op.name + "_negative_alpha", set_unique=True)
+        fm_alpha = clone_fm(ofm, op.name + "_negative_alpha")
         mul_alpha.set_output_tensor(fm_alpha)
-        mul_alpha.set_ifm_ofm_shapes()
+        set_shapes(mul_alpha, alpha_shape)
         DebugDatabase.add_optimised(op, mul_alpha)
 
         # Select (and scale) values > 0
         relu_op = Operation(Op.Relu, op.name + "_relu")
         relu_op.add_input_tensor(ifm)
-        fm_scaled = ofm.clone(op.name + "_positive_scaled", set_unique=True)
+        fm_scaled = clone_fm(ofm, op.name + "_positive_scaled")
         relu_op.set_output_tensor(fm_scaled)
-        relu_op.set_ifm_ofm_shapes()
+        set_shapes(relu_op, None)
         DebugDatabase.add_optimised(op, relu_op)
 
         # Add scaled and alpha multiplied values (without scaling)
@@ -1442,7 +1458,7 @@ def convert_prelu(op: Operation, arch, nng) -> Operation:
         add_op.add_input_tensor(fm_alpha)
         add_op.add_input_tensor(fm_scaled)
         add_op.set_output_tensor(ofm)
-        add_op.set_ifm_ofm_shapes()
+        set_shapes(add_op, ifm_shape)
 
         DebugDatabase.add_optimised(op, add_op)
         ifm.consumer_list.remove(op)
